@@ -261,4 +261,72 @@ theorem copyObj_spec (deep : Bool) (o : HObj) :
       · exact lt_of_lt_of_le (c4 a e) i1.length_le
       · exact i4 a e
 
+/-! ### what a shallow copy shares -/
+
+theorem dictRefs_sub_refs (o : HObj) : ∀ a ∈ dictRefs o, a ∈ refs o := by
+  induction o with
+  | nil => intro a ha; simp [dictRefs] at ha
+  | cons kv r ih =>
+    obtain ⟨k, v⟩ := kv
+    intro a ha
+    cases v with
+    | none => exact List.mem_append_right _ (ih a (by simpa [dictRefs] using ha))
+    | imm d => exact List.mem_append_right _ (ih a (by simpa [dictRefs] using ha))
+    | ref b => exact List.mem_append_right _ (ih a (by simpa [dictRefs] using ha))
+    | dict kvs =>
+      simp only [dictRefs, List.mem_append] at ha
+      rcases ha with e | e
+      · exact List.mem_append_left _ (by simpa [refsV] using e)
+      · exact List.mem_append_right _ (ih a e)
+
+theorem copyVal_false_len_le (h : Heap) (v : Val) : h.length ≤ (copyVal false h v).1.length := by
+  cases v with
+  | none => simp [copyVal]
+  | imm d => simp [copyVal]
+  | ref a => simp [copyVal, copyArr]
+  | dict kvs => simp [copyVal]
+
+/-- every address a shallow copy refers to is an array inside one of the source's dictionaries, or fresh -/
+theorem shallow_refs (o : HObj) :
+    ∀ (h : Heap) (a : Addr), a ∈ refs (copyObj false h o).2 → a ∈ dictRefs o ∨ h.length ≤ a := by
+  induction o with
+  | nil => intro h a ha; simp [copyObj, refs] at ha
+  | cons kv r ih =>
+    obtain ⟨k, v⟩ := kv
+    intro h a ha
+    simp only [copyObj, refs, List.mem_append] at ha
+    rcases ha with e | e
+    · cases v with
+      | none => simp [copyVal, refsV] at e
+      | imm d => simp [copyVal, refsV] at e
+      | ref b =>
+        have : a = h.length := by simpa [copyVal, refsV, copyArr] using e
+        exact Or.inr (le_of_eq this.symm)
+      | dict kvs =>
+        have : a ∈ refsD kvs := by simpa [copyVal, refsV] using e
+        exact Or.inl (by simp [dictRefs, this])
+    · rcases ih _ a e with i | i
+      · left
+        cases v <;> simp [dictRefs, i]
+      · exact Or.inr (le_trans (copyVal_false_len_le h v) i)
+
+/-- … and every array inside a dictionary of the source is shared by the shallow copy -/
+theorem dictRefs_in_shallow (o : HObj) :
+    ∀ (h : Heap) (a : Addr), a ∈ dictRefs o → a ∈ refs (copyObj false h o).2 := by
+  induction o with
+  | nil => intro h a ha; simp [dictRefs] at ha
+  | cons kv r ih =>
+    obtain ⟨k, v⟩ := kv
+    intro h a ha
+    simp only [copyObj, refs, List.mem_append]
+    cases v with
+    | none => exact Or.inr (ih _ a (by simpa [dictRefs] using ha))
+    | imm d => exact Or.inr (ih _ a (by simpa [dictRefs] using ha))
+    | ref b => exact Or.inr (ih _ a (by simpa [dictRefs] using ha))
+    | dict kvs =>
+      simp only [dictRefs, List.mem_append] at ha
+      rcases ha with e | e
+      · exact Or.inl (by simpa [copyVal, refsV] using e)
+      · exact Or.inr (ih _ a e)
+
 end StoreCopy
